@@ -15,8 +15,9 @@ import (
 )
 
 // StaticDecl: obligations decided by scanning the SSA, without a solver.
-//   mapinit  <globalMap> = "k1", "k2", ...   : the map literal has exactly these keys (value true) and is never written elsewhere
-//   callsonly <func>: callee1, callee2       : the function calls nothing but the listed callees
+//
+//	mapinit  <globalMap> = "k1", "k2", ...   : the map literal has exactly these keys (value true) and is never written elsewhere
+//	callsonly <func>: callee1, callee2       : the function calls nothing but the listed callees
 type StaticDecl struct {
 	Kind, Pkg, Subject string
 	Items              []string
